@@ -460,8 +460,11 @@ Definition call_holds (tbl : list (string * Z)) (prev : otree) (nh : Z) (c : cal
   olinks (k_tree c).
 
 (* the part of [call_holds] that Props/C16.v proves for all cases *)
-Definition call_holds_core (nh : Z) (c : call) : bool :=
+Definition call_holds_core (tbl : list (string * Z)) (nh : Z) (c : call) : bool :=
   exc_eqb (k_exc c) (if first_notdir (k_truth c) then XValueError else XNone) &&
+  perm_b built_eqb (map (fun x => (norm (fst (snd x)), snd (snd x))) (k_log c))
+                   (map fst (accepted_files tbl c)) &&
+  forallb (fun x => match snd x with Some _ => true | None => false end) (accepted_files tbl c) &&
   seq_from nh (map fst (k_log c)) &&
   olinks (k_tree c).
 
@@ -474,12 +477,13 @@ Fixpoint holds_from (tbl : list (string * Z)) (prev : otree) (nh : Z) (cs : list
       holds_from tbl (k_tree c) (nh + Z.of_nat (List.length (k_log c))) cs
   end.
 Definition holds_b (c : C16_case) : bool := holds_from (c_names c) o_empty 0 (c_calls c).
-Fixpoint core_from (nh : Z) (cs : list call) : bool :=
+Fixpoint core_from (tbl : list (string * Z)) (nh : Z) (cs : list call) : bool :=
   match cs with
   | [] => true
-  | c :: cs => call_holds_core nh c && core_from (nh + Z.of_nat (List.length (k_log c))) cs
+  | c :: cs => call_holds_core tbl nh c &&
+               core_from tbl (nh + Z.of_nat (List.length (k_log c))) cs
   end.
-Definition holds_core_b (c : C16_case) : bool := core_from 0 (c_calls c).
+Definition holds_core_b (c : C16_case) : bool := core_from (c_names c) 0 (c_calls c).
 Definition holds (c : C16_case) : Prop := holds_b c = true.
 
 (* ---- input domain ------------------------------------------------------------------------------ *)
@@ -503,9 +507,18 @@ Definition hidden (root : list string) (e : entry) : bool :=
   | None => false
   end.
 
+(* the path of a file is written without a trailing separator: its last
+   component is the file's name *)
+Definition file_named (e : entry) : bool :=
+  match e_kind e with
+  | KFile => String.eqb (last_comp (e_comps e)) (List.last (norm (e_comps e)) EmptyString)
+  | _ => true
+  end.
+
 Definition truth_ok (tbl : list (string * Z)) (c : call) (r : rule) (t : tstat) (seq : list entry) : bool :=
   match t with
   | TDir truth =>
+      forallb file_named truth && forallb file_named seq &&
       (* the rule's directory first, everything else beneath it, nothing twice *)
       match truth with
       | d :: _ => kind_eqb (e_kind d) KDir &&
